@@ -143,13 +143,40 @@ def report(phase, bad, make_case, stats):
     return len(cases)
 
 
+def first_difference(a, b, path=""):
+    """For the reader of a replay file only (the verdict is TLC's): where two dumped trees first differ."""
+    if type(a) != type(b):
+        return path, a, b
+    if isinstance(a, dict):
+        for k in sorted(set(a) | set(b)):
+            if k not in a or k not in b:
+                return f"{path}.{k}", a.get(k), b.get(k)
+            r = first_difference(a[k], b[k], f"{path}.{k}")
+            if r:
+                return r
+        return None
+    if isinstance(a, list):
+        if len(a) != len(b):
+            return f"{path}[length]", len(a), len(b)
+        for i, (x, y) in enumerate(zip(a, b)):
+            r = first_difference(x, y, f"{path}[{i}]")
+            if r:
+                return r
+        return None
+    return None if a == b else (path, a, b)
+
+
 def observed_of(rec, widths_txt, err):
     trips = rec["trips"]
     t = next((t for t in trips if (t["err"] or t["reparsed"] != rec["orig"])), trips[0])
     o = {"widths": t["widths"], "syntax_errors_in_output": t["errors"] if t["err"] else []}
-    if not t["err"] and rec["kind"] == "expr":
-        o["original_tree"] = rec["orig"]
-        o["reparsed_tree"] = t["reparsed"]
+    if not t["err"]:
+        if rec["kind"] == "expr":
+            o["original_tree"] = rec["orig"]
+            o["reparsed_tree"] = t["reparsed"]
+        fd = first_difference(rec["orig"], t["reparsed"])
+        if fd:
+            o["first_difference"] = {"at": fd[0], "original": json.dumps(fd[1])[:400], "reparsed": json.dumps(fd[2])[:400]}
     return o
 
 
@@ -218,7 +245,12 @@ def tree_phase(cfg, fixes, tolerate, stats, samples, d, tier):
             out.append((len(src), {"kind": "tree", "cfg": cfg, "src": src, "line": tl}, observed_of(json.loads(recs[l]), w, err)))
         return out
 
-    return report(f"tree-{name}", bad, make, stats)
+    n_bad = report(f"tree-{name}", bad, make, stats)
+    if not n_bad:
+        for f in (trees_path, trace):
+            if os.path.getsize(f) > 30_000_000:
+                os.remove(f)
+    return n_bad
 
 
 def string_phase(cfg, fixes, tolerate, stats, samples, d):
@@ -284,7 +316,10 @@ def module_phase(name, args, tolerate, stats, d):
             out.append((len(text), {"kind": "module", "path": case, "text": text}, observed_of(rec, w, err)))
         return out
 
-    return summary, report(name, bad, make, stats)
+    n_bad = report(name, bad, make, stats)
+    if not n_bad and os.path.getsize(trace) > 30_000_000:
+        os.remove(trace)
+    return summary, n_bad
 
 
 def witness_phase(findings, stats, d):
